@@ -10,7 +10,7 @@ PROPERTY = 'C02'
 
 RULE = ('Typed random past-time STL grammar (no future operator; reuse of already drawn sub-formulas raised to 0.3 so that '
         'duplicate printed names over stateful nodes are common) x random traces of length 1..16 fed one update() per sample with '
-        'exactly the free variables. Oracle: update_i == R-dt(spec, w)[i] (reference) and == rtamt offline evaluate(w)[i] for every i. '
+        'exactly the free variables (lanes main, dup, deep, and long: 16-48 samples with bounds up to 20; one trace in five uses very few distinct values so that exact zeros and ties occur). Oracle: update_i == R-dt(spec, w)[i] (reference) and == rtamt offline evaluate(w)[i] for every i. '
         'Non-trivial = formula has a stateful operator (prev, s_prev, rise, fall, once, historically, since, bounded or not) and '
         'n >= 2; distinct = distinct (formula text, trace) digests.')
 
